@@ -147,6 +147,11 @@ func cmdMemSize(args []string) error {
 			if s.after < s.before || s.after%32 != 0 {
 				cs.Oracle = append(cs.Oracle, fmt.Sprintf("C01: memory length %d -> %d at opcode %02x", s.before, s.after, s.op))
 			}
+			// C01 in the yellow paper's words: memory after = M(M(before, f1, l1), f2, l2) with M(s, f, l) = s when l = 0 and
+			// max(s, 32 x ceil((f + l) / 32)) otherwise, over the regions the instruction names
+			if want, ok := ypMemory(s.op, s.stack, s.before); ok && want != s.after {
+				cs.Oracle = append(cs.Oracle, fmt.Sprintf("C01: opcode %02x took the memory from %d to %d bytes, the regions it names give %d", s.op, s.before, s.after, want))
+			}
 			// C20 in the property's words: the retained allocation is bounded by a fixed multiple of the gas charged
 			// (3 gas per 32-byte word at least); C02: an instruction that only pays for memory pays the yellow-paper difference
 			if hasMemFn(s.op) && s.after > s.before && 3*(s.after-s.before) > 32*s.cost {
@@ -301,4 +306,55 @@ func memWalk(r *rng.R, cancun bool) []byte {
 		}
 	}
 	return b.Op(0x00).Bytes()
+}
+
+// ypMemory: the yellow paper's memory expansion for the regions an instruction names (ok = false: an operand does not fit
+// 63 bits, the step cannot succeed and was not recorded, or the opcode names no region)
+func ypMemory(op byte, st []*big.Int, before uint64) (uint64, bool) {
+	type reg struct{ off, ln int } // stack positions; ln < 0: the constant -ln
+	var regs []reg
+	switch {
+	case op == 0x20, op >= 0xa0 && op <= 0xa4, op == 0xf3, op == 0xfd:
+		regs = []reg{{0, 1}}
+	case op == 0x37, op == 0x39, op == 0x3e:
+		regs = []reg{{0, 2}}
+	case op == 0x3c:
+		regs = []reg{{1, 3}}
+	case op == 0x51, op == 0x52:
+		regs = []reg{{0, -32}}
+	case op == 0x53:
+		regs = []reg{{0, -1}}
+	case op == 0x5e:
+		regs = []reg{{0, 2}, {1, 2}}
+	case op == 0xf0, op == 0xf5:
+		regs = []reg{{1, 2}}
+	case op == 0xf1, op == 0xf2:
+		regs = []reg{{3, 4}, {5, 6}}
+	case op == 0xf4, op == 0xfa:
+		regs = []reg{{2, 3}, {4, 5}}
+	default:
+		return 0, false
+	}
+	want := before
+	for _, g := range regs {
+		var ln uint64
+		if g.ln < 0 {
+			ln = uint64(-g.ln)
+		} else {
+			if g.ln >= len(st) || st[g.ln].BitLen() > 62 {
+				return 0, false
+			}
+			ln = st[g.ln].Uint64()
+		}
+		if ln == 0 {
+			continue
+		}
+		if g.off >= len(st) || st[g.off].BitLen() > 62 {
+			return 0, false
+		}
+		if need := (st[g.off].Uint64() + ln + 31) / 32 * 32; need > want {
+			want = need
+		}
+	}
+	return want, true
 }
